@@ -513,7 +513,8 @@ class CircuitTemplate(AbstractBaseTemplate):
             for key, val in outputs_final.items():
                 if type(val) is dict:
                     for key2, v in val.items():
-                        outputs_final[key][key2] = np.interp(new_times, time_vec, v)
+                        outputs_final[key][key2] = np.interp(new_times, time_vec, v) if np.ndim(v) < 2 else np.stack(
+                            [np.interp(new_times, time_vec, v[:, i]) for i in range(v.shape[1])], axis=1)
                 elif hasattr(val, 'ndim') and val.ndim == 2:
                     outputs_final[key] = np.stack(
                         [np.interp(new_times, time_vec, val[:, i]) for i in range(val.shape[1])], axis=1)
@@ -530,6 +531,12 @@ class CircuitTemplate(AbstractBaseTemplate):
                 multi_index = True
                 for key2, v in out.items():
                     *nodes, op, var = key2.split("/")
+                    if np.ndim(v) == 2:
+                        # a population inside a wildcard key: one column per unit, like a population asked for by name
+                        for i in range(v.shape[1]):
+                            columns.append((key,) + tuple(nodes) + ("/".join([op, var]), i))
+                            data.append(v[:, i])
+                        continue
                     columns.append((key,) + tuple(nodes) + ("/".join([op, var]),))
                     data.append(v)
             elif hasattr(out, 'ndim') and out.ndim == 2:
